@@ -12,21 +12,22 @@ inductive Prop' | c02 | c03
   deriving DecidableEq
 
 /-- model counterpart of the harness' `observeFormat` -/
-def modelFormat (impl : Fields) (pfx : String) : Fields × Option ParseResult :=
+def modelFormat (impl : Fields) (pfx : String) : Fields × Option ParseResult × List (String × NList) :=
   let m := modelParse impl pfx true
   match m.res with
-  | none => (m.fields, none)
+  | none => (m.fields, none, [])
   | some r =>
-    if r.errors > 0 || r.cont then (m.fields, some r) else
-    let second := [("n", false), ("c", true)].foldl (init := ([] : Fields)) fun acc (mk, compact) =>
+    if r.errors > 0 || r.cont then (m.fields, some r, []) else
+    let (second, again) := [("n", false), ("c", true)].foldl (init := (([] : Fields), ([] : List (String × NList)))) fun (acc, ag) (mk, compact) =>
       match printProgram isPrintTable r.program compact false with
-      | .error _ => acc
+      | .error _ => (acc, ag)
       | .ok _ =>
         let k := pfx ++ mk ++ "."
         let rr := modelParse impl k false
         match rr.res with
-        | none => acc ++ rr.fields
-        | some r2 => acc ++ rr.fields ++ [(k ++ "pp", printField r2.program compact false)]
+        | none => (acc ++ rr.fields, ag)
+        | some r2 => (acc ++ rr.fields ++ [(k ++ "pp", printField r2.program compact false)],
+                      if r2.errors == 0 && !r2.cont then ag ++ [(mk, r2.program)] else ag)
     -- history independence: the model has no interning table, so the answer is always 1
     let h := match impl.get (pfx ++ "h") with
       | some _ => [(pfx ++ "h", "1")]
@@ -35,7 +36,11 @@ def modelFormat (impl : Fields) (pfx : String) : Fields × Option ParseResult :=
     let rp := match impl.get (pfx ++ "r") with
       | some _ => [(pfx ++ "r", "1")]
       | none => []
-    (m.fields ++ second ++ rp ++ h, some r)
+    -- a fresh process prints the same bytes: the model has no process state
+    let xp := match impl.get (pfx ++ "x") with
+      | some _ => [(pfx ++ "x", "1")]
+      | none => []
+    (m.fields ++ second ++ rp ++ xp ++ h, some r, again)
 
 /-! ### C02 -/
 
@@ -77,11 +82,64 @@ end Grol.FormatSuite
 namespace Grol.FormatSuite
 open Grol.Wire Grol.Generated Grol.Parser Grol.Printer Grol.Front
 
+/-! ### `repeated-associative-operator-on-the-right`, exactly
+
+The recorded finding is: `a + (b + c)` is printed `a + b + c` and reads back as `(a + b) + c`.  A failing case is
+put in this class only when that is ALL that happened: the re-parsed tree equals the original once every chain
+of one associative operator is flattened (`assocDump`).  (The other open classes stay properties of the tree.) -/
+
+def isAssocTok (t : Tk) : Bool :=
+  t.type = .PLUS || t.type = .ASTERISK || t.type = .AND || t.type = .OR || t.type = .BITAND || t.type = .BITOR || t.type = .BITXOR
+
+mutual
+/-- the dump without comment flags where `x op (y op z)` and `(x op y) op z` (op associative) read the same -/
+partial def assocDump (noCom : Bool) : Node → String
+  | .infix t l r =>
+    if isAssocTok t && r.isSome then "(Chain " ++ dumpTk t ++ chainO noCom t l ++ chainO noCom t r ++ ")"
+    else "(Inf " ++ dumpTk t ++ " " ++ assocDumpO noCom l ++ " " ++ assocDumpO noCom r ++ ")"
+  | .ret t v => "(Ret " ++ dumpTk t ++ " " ++ assocDumpO noCom v ++ ")"
+  | .pre t r => "(Pre " ++ dumpTk t ++ " " ++ assocDumpO noCom r ++ ")"
+  | .forE t c b => "(For " ++ dumpTk t ++ " " ++ assocDumpO noCom c ++ " " ++ assocDumpS noCom b ++ ")"
+  | .ifE t c a b => "(If " ++ dumpTk t ++ " " ++ assocDumpO noCom c ++ " " ++ assocDumpS noCom a ++ " " ++ assocDumpS noCom b ++ ")"
+  | .builtin t ps => "(Bi " ++ dumpTk t ++ " [" ++ assocDumpL noCom false ps ++ "])"
+  | .func t n ps b v l => "(Fn " ++ dumpTk t ++ " " ++ (match n with | none => "nil" | some n => dumpTk n) ++ " [" ++
+      assocDumpL noCom false ps ++ "] " ++ assocDumpS noCom b ++ " " ++ boolStr v ++ boolStr l ++ ")"
+  | .call t f as => "(Call " ++ dumpTk t ++ " " ++ assocDumpO noCom f ++ " [" ++ assocDumpL noCom false as ++ "])"
+  | .array t es => "(Arr " ++ dumpTk t ++ " [" ++ assocDumpL noCom false es ++ "])"
+  | .index t l i => "(Idx " ++ dumpTk t ++ " " ++ assocDumpO noCom l ++ " " ++ assocDumpO noCom i ++ ")"
+  | .mapLit t kvs => "(Map " ++ dumpTk t ++ " [" ++ assocDumpL noCom false kvs ++ "])"
+  | .macroLit t ps b => "(Mac " ++ dumpTk t ++ " [" ++ assocDumpL noCom false ps ++ "] " ++ assocDumpS noCom b ++ ")"
+  | n => n.dump noCom true
+partial def assocDumpO (noCom : Bool) : Option Node → String
+  | none => "nil"
+  | some n => assocDump noCom n
+/-- the operands of the chain of operator `t` that `n` belongs to, each preceded by a space -/
+partial def chainO (noCom : Bool) (t : Tk) : Option Node → String
+  | some (.infix t' l (some r)) =>
+    if t'.type = t.type then chainO noCom t l ++ chainO noCom t (some r) else " " ++ assocDump noCom (.infix t' l (some r))
+  | n => " " ++ assocDumpO noCom n
+partial def assocDumpL (noCom stmts : Bool) : List (Option Node) → String
+  | [] => ""
+  | none :: xs => " nil" ++ assocDumpL noCom stmts xs
+  | some n :: xs => (if noCom && stmts && n.isComment then "" else " " ++ assocDump noCom n) ++ assocDumpL noCom stmts xs
+partial def assocDumpS (noCom : Bool) : Option (List (Option Node)) → String
+  | none => "nil"
+  | some l => "{" ++ assocDumpL noCom true l ++ "}"
+end
+
+/-- the re-parsed program differs from the original by re-association only -/
+def assocOnly (noCom : Bool) (orig : NList) (again : Option NList) : Bool :=
+  match again with
+  | some a => assocDumpS noCom (some a) == assocDumpS noCom (some orig)
+  | none => false
+
 /-- the known-finding class of a failing case: every failing component (normal / compact) must be
-explained by a listed class of the tree; the first explaining class is reported -/
-def classify (prog : NList) (normalFails compactFails : Bool) : String :=
-  let nc := Classes.normalClasses prog
-  let cc := Classes.compactClasses prog
+explained by a listed class of the tree; the first explaining class is reported.  `assocN` / `assocC`: the
+normal / compact re-parse differs from the original by re-association only. -/
+def classify (prog : NList) (normalFails compactFails assocN assocC : Bool) : String :=
+  let keep (ok : Bool) (l : List String) := l.filter fun c => c != "repeated-associative-operator-on-the-right" || ok
+  let nc := keep assocN (Classes.normalClasses prog)
+  let cc := keep assocC (Classes.compactClasses prog)
   if normalFails && nc.isEmpty then ""
   else if compactFails && cc.isEmpty then ""
   else if normalFails then nc.headD ""
@@ -91,8 +149,8 @@ def classify (prog : NList) (normalFails compactFails : Bool) : String :=
 def runCase (prop : Prop') (inp obs : String) : CaseResult :=
   let impl := parseFields obs
   if (impl.get "F.toks").isNone || (impl.get "L.toks").isNone then CaseResult.badLine else
-  let (ff, fr) := modelFormat impl "F."
-  let (lf, lr) := modelFormat impl "L."
+  let (ff, fr, fagain) := modelFormat impl "F."
+  let (lf, lr, lagain) := modelFormat impl "L."
   let model := ff ++ lf
   let modelStr := renderFields model
   -- (holds, normal component fails, compact component fails)
@@ -108,7 +166,7 @@ def runCase (prop : Prop') (inp obs : String) : CaseResult :=
       (a && b && c && d && a' && b' && c' && d', !a || !a' || !c || !c' , !b || !b')
   let (sm, mn, mc) := stmt model
   let (si, inn, ic) := stmt impl
-  let history := !(impl.is "F.h" "0") && !(impl.is "L.h" "0") && !(impl.is "F.r" "0")
+  let history := !(impl.is "F.h" "0") && !(impl.is "L.h" "0") && !(impl.is "F.r" "0") && !(impl.is "F.x" "0")
   let si := si && history
   -- C03 also checks, on the real lexer's streams, the lexer fact the exactly-one-newline theorem assumes
   let lf := prop != .c03 || ["F.toks", "L.toks", "F.n.toks", "F.c.toks"].all fun k =>
@@ -128,6 +186,11 @@ def runCase (prop : Prop') (inp obs : String) : CaseResult :=
     tags := (match fr with | some r => ParseSuite.topTags r | none => ["panic"]) ++ (if valid model "F." then ["valid"] else ["invalid"])
             ++ (if valid model "F." then (Classes.normalClasses prog ++ Classes.compactClasses prog).eraseDups else []),
     nontrivial := valid model "F." && (match fr with | some r => !r.program.isEmpty | none => false),
-    klass := if history then classify prog (mn || inn) (mc || ic) else "" }
+    klass :=
+      -- which run is `prog` from: its re-parses decide whether a failure is re-association only
+      let again := if valid model "F." then fagain else lagain
+      if history && (mn || inn || mc || ic) then
+        classify prog (mn || inn) (mc || ic) (assocOnly false prog (again.lookup "n")) (assocOnly true prog (again.lookup "c"))
+      else "" }
 
 end Grol.FormatSuite
